@@ -82,8 +82,17 @@ def gen_c01(tier, seed):
         for eci in (True, False):
             add(call('make_qr', txt, encoding=enc, eci=eci))
             add(call('make_qr', txt.encode(enc), encoding=enc, eci=eci))
+    # a requested encoding is used even when the text is plain ASCII (digits, upper-case, lower-case): the bytes of 'AB' in UTF-16 are not b'AB';
+    # every encoding of the table, and codecs without an ECI number that are no ASCII supersets (EBCDIC, UTF-16-LE, UTF-32)
+    for enc in ECI_ENCODINGS + ['utf-16-le', 'utf-32-be', 'cp037', 'cp500', 'utf-16']:
+        for txt in ('AB', '12', 'plain text'):
+            for kw in ({'eci': True}, {'eci': False}, {'eci': False, 'micro': None}):
+                if kw['eci'] and enc not in ECI_ENCODINGS:
+                    continue
+                add(call('make' if 'micro' in kw else 'make_qr', txt, encoding=enc, **kw))
+        add(call('make', [('AB', None, enc), ('12', None, enc)], micro=False))
     # incl. characters that cp932 / vendor extensions can encode but JIS X 0208 Shift JIS cannot (must fall back to UTF-8)
-    for txt in ('aä', 'ｱｲ', '€uro', 'abc', '点茗', '123', '①②③', '㈱髙', 'a～b', '①'):
+    for txt in ('aä', 'ｱｲ', '€uro', 'abc', '点茗', '123', '①②③', '㈱髙', 'a～b', '①', '\uff11\uff12\uff13', '\u0661\u0662\u0663', '\u00b2\u00b3', '1\uff12', '\uff21\uff22'):
         for eci in (True, False):
             for micro in (None, False):
                 add(call('make', txt, eci=eci, micro=micro))
@@ -511,6 +520,11 @@ def gen_c03(tier, seed):
                 nmax = T.max_chars(v, e, mode)
                 n = r.randint(max(1, nmax // 2), max(1, nmax))
                 kw = kw_for(v, e)
+                # the blocks must be correctable whatever the mask: automatic and every requested pattern, 0 included, in rotation
+                nm = 4 if v < 1 else 8
+                mk = (len(specs) + k) % (nm + 1) - 1
+                if mk >= 0:
+                    kw['mask'] = mk
                 if k == 1 and mode == 'byte':
                     c = call('make', b'\x00' * n, **kw)
                 elif k == 2 and mode == 'byte':
@@ -651,7 +665,11 @@ def run_c06(rep, tier):
     for m in range(8):
         for c in (call('make_sequence', gen.latin1(r, 12), version=1 + m % 2, mask=m),
                   call('make_sequence', gen.digits(r, 30), symbol_count=2, mask=m),
-                  call('make_sequence', gen.alnum(r, 90), version=1, mask=m, error='Q')):
+                  call('make_sequence', gen.alnum(r, 90), version=1, mask=m, error='Q'),
+                  # version AND symbol_count: the version decides how many symbols there are (more / fewer than symbol_count, up to 16)
+                  call('make_sequence', gen.alnum(r, 60), version=1, symbol_count=2, mask=m),
+                  call('make_sequence', gen.latin1(r, 20), version=2, symbol_count=5, mask=m),
+                  call('make_sequence', gen.latin1(r, 150 + m), version=1, symbol_count=1 + m, mask=m, error='L')):
             obs += symobs.observe_sequence_symbols(c, props=['C06'])
             nseq += 1
     # automatic mask in sequences: every symbol gets its own best mask
